@@ -1,6 +1,7 @@
 package props
 
 import (
+	"calcsa/engines/enc"
 	"calcsa/engines/lexfsm"
 	"calcsa/engines/valtab"
 	"calcsa/engines/vmshape"
@@ -10,6 +11,8 @@ func init() {
 	RegisterEngine(&Engine{Name: "lexfsm", Run: lexfsm.Run})
 	engineKinds["lexfsm"] = "finite-automaton extraction by abstract interpretation of the lexer's SSA; symbolic effect of one Lexer.Next iteration"
 
+	RegisterEngine(&Engine{Name: "enc", Run: enc.Run})
+	engineKinds["enc"] = "bit-field decomposition of the symbolically evaluated encoder / decoder functions; writer and reader compared field by field"
 	RegisterEngine(&Engine{Name: "valtab", Run: valtab.Run})
 	engineKinds["valtab"] = "operator table of package value by abstract interpretation of every operator method over kind pairs with symbolic payloads; compared with the documented algebra"
 	RegisterEngine(&Engine{Name: "vmshape", Run: vmshape.Run})
@@ -29,6 +32,20 @@ func init() {
 		Decides:    "for all operand values: which cases every operator distinguishes on every pair of operand kinds, the Go primitive and conversions applied in each, the error class of every other pair, the zero-divisor guard, symmetry of == and != as its negation, and the exact index bounds; the VM side binding of operands to receiver/argument.",
 		NotDecided: "floating point results, overflow wrap-around and NaN ordering (Go semantics, trusted); element-wise array comparison is summarised (the recursive call is not unfolded); the laws about lengths of slices and concatenations follow from Go's slice semantics and are not re-derived.",
 		Assumptions: []string{"loops over array payloads are explored for 0 and 1 iterations, the recursive element comparison is treated as an opaque (bool, error) pair"},
+	})
+	RegisterSpec(&Spec{
+		ID: "C15", Title: "Encodings are lossless and size limits are enforced, never wrapped",
+		Rules: []RuleRef{
+			{"enc", "E1", 9, "every instruction field is read back with the shift and width it was written with; fields are disjoint"},
+			{"enc", "E2", 1, "the operand range the encoder accepts is the range the decoder can return"},
+			{"enc", "E3", 55, "opcodes fit their field; base opcodes stay below the temp flag; every TMP opcode is TempFlag|base"},
+			{"enc", "E4", 4, "every value packed into a narrower field is range checked first"},
+			{"enc", "E5", 4, "a function value preserves entry point, parameter count and local count"},
+			{"enc", "E6", 3, "the function value can count every local the instruction encoding can address"},
+		},
+		Technique:  "symbolic evaluation of the encoder/decoder functions (abstract interpretation over go/ssa), bit-field decomposition of the results, writer/reader comparison",
+		Decides:    "decode(encode(x)) = x field by field for instructions and function values (as shift/mask algebra over the extracted fields), accepted operand range within the decodable range, opcode/flag packing, range checks before narrowing packs.",
+		NotDecided: "that a refused program is refused gracefully (today by panic: counted under C05); jump patching (compiler side, B-rules).",
 	})
 	RegisterSpec(&Spec{
 		ID: "C19", Title: "Runtime error reports point at the real failure",
